@@ -1,12 +1,13 @@
 /-
 Layer M of C19: executable mirrors of the whoosh code behind fuzzy term matching and spelling
-suggestions (as it stands after the three `fix:` commits of the fuzzy family: prefix clamp in
+suggestions (as it stands after the `fix:` commits of the fuzzy family: prefix clamp in
 `levenshtein_automaton`, `while match is not None` in `Automata.find_matches`, no edge after
-U+10FFFF in `DFA.find_next_edge`).
+U+10FFFF and no surrogate label in `DFA.find_next_edge`).
 
 Characters are code points (`Nat`), strings are `List Nat`; Python's string order (code point
-lexicographic, a proper prefix is smaller) is `lexLt`.  UTF-8 byte order of the stored terms is
-the same order (property of UTF-8, trusted).  Python sets / frozensets are lists compared with
+lexicographic, a proper prefix is smaller) is `lexLt`.  The stored terms are UTF-8 keys compared as
+bytes: `utf8`, `cursorFindBytes`, `findMatchesBytes`; that this is the same order is proved
+(`WM.Lev.utf8_lt_iff`).  Python sets / frozensets are lists compared with
 `setEq` (mutual inclusion); dictionaries are association lists, the newest binding first.
 
 * `support/levenshtein.py`  : `dp` (= `levenshtein` for `tr = false`, `damerau_levenshtein` for
@@ -15,7 +16,10 @@ the same order (property of UTF-8, trusted).  Python sets / frozensets are lists
 * `automata/fsa.py`         : `NFA` (`expand`, `start`, `nextState`, `isFinal`, `getLabels`, `accept`,
   `toDfa`), `DFA` (`nextState`, `isFinal`, `accept`, `findNextEdge`, `nextValidString`)
 * `codec/base.py`           : `findMatches` (`Automata.find_matches`), `termsWithinSeg`
-  (`Automata.terms_within` as called by `SegmentReader.terms_within`)
+  (`Automata.terms_within` as called by `SegmentReader.terms_within`); over the byte-ordered
+  dictionary: `findMatchesBytes`, `termsWithinSegBytes`
+* `fields.py`, `codec/whoosh3.py` : `utf8Encode` (`FieldType.to_bytes`), `cursorFindBytes`
+  (`W3FieldCursor.find` + `text`)
 * `reading.py`              : `termsWithinBase` (`IndexReader.terms_within`, used by `MultiReader`)
 * `spelling.py`             : `suggestions` (`ReaderCorrector._suggestions`), `suggest`
   (`Corrector.suggest`)
@@ -359,18 +363,28 @@ inductive Err where
   | indexError
   /-- an exception inside `distance()` (never: theorem `dp_osa`) -/
   | dpError
+  /-- `UnicodeEncodeError`: `to_bytes` of a string that contains a surrogate -/
+  | encodeError
   deriving DecidableEq, Repr
 
 def maxCodePoint : Nat := 0x10FFFF
 
+/-- A character a term can contain: a Unicode scalar value (a code point that is not a surrogate;
+    the term dictionary stores UTF-8, which has no encoding for U+D800..U+DFFF). -/
+def isScalar (c : Nat) : Bool := decide (c ≤ maxCodePoint) && !(decide (0xD800 ≤ c) && decide (c ≤ 0xDFFF))
+
 namespace DFA
 
 /-- First half of `find_next_edge`: `label = u'\\0' if label is None`, no label after
-    `sys.maxunicode` (`return None`), else `unichr(ord(label) + 1)`. -/
+    `sys.maxunicode` (`return None`), else `unichr(ord(label) + 1)` - stepping over the surrogate
+    block (`if 0xD800 <= code <= 0xDFFF: code = 0xE000`, "fix: DFA.find_next_edge steps over the
+    surrogate block"). -/
 def nextLabel (label : Option Nat) : Option Nat :=
   match label with
   | none => some 0
-  | some l => if l ≥ maxCodePoint then none else some (l + 1)
+  | some l =>
+    if l ≥ maxCodePoint then none
+    else if 0xD800 ≤ l + 1 ∧ l + 1 ≤ 0xDFFF then some 0xE000 else some (l + 1)
 
 /-- Second half of `find_next_edge`: `if label in trans or s in self.defaults: return label`, else
     `bisect_left(sorted(trans), label)`.  `s = None` has no transitions and no default. -/
@@ -478,6 +492,70 @@ def termsWithinSeg (lex : List (List Nat)) (w : List Nat) (d p : Nat) : Except E
   match (levenshteinAutomaton w d p).toDfa with
   | none => .error .fuel
   | some dfa => findMatches (dfa.nextValidString (levChain w d)) lex
+
+/-! ## The term dictionary is ordered by UTF-8 bytes
+
+`W3FieldCursor.find(term)` does `self._fieldobj.to_bytes(term)` (`utf8encode`) and positions the
+cursor with `closest_key_pos` on the first key whose *bytes* are `≥`; `text()` decodes the key.  The
+automaton (`next_valid_string`, `find_next_edge`) works on code points.  Here the cursor is
+modelled on bytes; `WM.C19.utf8_order` / `terms_within_single_bytes` show the walk is the same. -/
+
+/-- `unichr(c).encode("utf-8")`: the bit layout of UTF-8 (1 to 4 bytes). -/
+def utf8Char (c : Nat) : List Nat :=
+  if c < 0x80 then [c]
+  else if c < 0x800 then [0xC0 + c / 64, 0x80 + c % 64]
+  else if c < 0x10000 then [0xE0 + c / 4096, 0x80 + c / 64 % 64, 0x80 + c % 64]
+  else [0xF0 + c / 262144, 0x80 + c / 4096 % 64, 0x80 + c / 64 % 64, 0x80 + c % 64]
+
+/-- The UTF-8 bytes of a string of scalar values. -/
+def utf8 (s : List Nat) : List Nat := s.flatMap utf8Char
+
+/-- `s.encode("utf-8")`: raises `UnicodeEncodeError` on a surrogate (and nothing beyond U+10FFFF is
+    a Python character). -/
+def utf8Encode (s : List Nat) : Except Err (List Nat) :=
+  if s.all isScalar then .ok (utf8 s) else .error .encodeError
+
+/-- `cur.find(term); cur.text()` on the stored lexicon `lex` (each term stands for its key bytes,
+    the keys are in byte order): the first term whose bytes are `≥` the bytes of `term`. -/
+def cursorFindBytes (lex : List (List Nat)) (term : List Nat) : Except Err (Option (List Nat)) :=
+  match utf8Encode term with
+  | .error e => .error e
+  | .ok b => .ok (lex.find? fun t => lexLe b (utf8 t))
+
+/-- `findLoop` with the byte-level cursor. -/
+def findLoopBytes (nv : List Nat → Except Err (Option (List Nat))) (lex : List (List Nat)) :
+    Nat → Option (List Nat) → Except Err (List (List Nat))
+  | _, none => .ok []
+  | 0, some _ => .error .fuel
+  | fuel + 1, some m =>
+    match cursorFindBytes lex m with
+    | .error e => .error e
+    | .ok none => .ok []
+    | .ok (some term) =>
+      if m = term then
+        match nv (term ++ [0]) with
+        | .error e => .error e
+        | .ok m' => (findLoopBytes nv lex fuel m').map fun r => m :: r
+      else
+        match nv term with
+        | .error e => .error e
+        | .ok m' => findLoopBytes nv lex fuel m'
+
+/-- `Automata.find_matches(dfa, cur)` for the cursor over the byte-ordered term dictionary. -/
+def findMatchesBytes (nv : List Nat → Except Err (Option (List Nat))) (lex : List (List Nat)) :
+    Except Err (List (List Nat)) :=
+  match lex.head? with
+  | none => .ok []
+  | some term =>
+    match nv term with
+    | .error e => .error e
+    | .ok m => findLoopBytes nv lex (2 * lex.length + 2) m
+
+/-- `SegmentReader.terms_within` over the byte-ordered term dictionary. -/
+def termsWithinSegBytes (lex : List (List Nat)) (w : List Nat) (d p : Nat) : Except Err (List (List Nat)) :=
+  match (levenshteinAutomaton w d p).toDfa with
+  | none => .error .fuel
+  | some dfa => findMatchesBytes (dfa.nextValidString (levChain w d)) lex
 
 /-! ## reading.py - the generic path used by `MultiReader` -/
 
